@@ -104,6 +104,17 @@ def check_dt(acc, pendulum, z, f, kw, durations=True, fold=1):
     case = {"kind": "dt", "z": z, "f": list(f), "kw": kw, "fold": fold}
     tzname = x.timezone_name
     pos = tuple(kw.get(k, 0) for k in KEYS)          # every argument positional, in the documented order
+    if f[2] % 2 == 0:
+        # on every other state the receiver object has been USED before (fixed-length arithmetic, modifiers, conversions,
+        # formatting: each returns a new value and leaves the receiver what it was)
+        import datetime as dt_
+        for use in (lambda: x.add(hours=3), lambda: x + dt_.timedelta(minutes=5), lambda: x.subtract(seconds=1, microseconds=1), lambda: x.start_of("day"),
+                    lambda: x.end_of("hour"), lambda: x.in_timezone("Asia/Tokyo"), lambda: x.format("LLLL Z"), lambda: hash(x), lambda: x.diff(x),
+                    lambda: x.set(minute=1), lambda: x.day_of_year, lambda: x.isoformat(), lambda: x.timestamp()):
+            try:
+                use()
+            except Exception:  # noqa: BLE001
+                pass
     for name, sign, fn in (("add", 1, lambda: x.add(**kw)), ("subtract", -1, lambda: x.subtract(**kw)),
                            ("add-negated", -1, lambda: x.add(**{k: -v for k, v in kw.items()})),
                            ("add-positional", 1, lambda: x.add(*pos)), ("subtract-positional", -1, lambda: x.subtract(*pos))):
@@ -155,9 +166,14 @@ def check_dt(acc, pendulum, z, f, kw, durations=True, fold=1):
     for p0 in INTERVAL_BASES:
         try:
             base = pendulum.DateTime(*p0, tzinfo=pendulum.UTC)
+            iv0 = base.add(**kw) - base
+            ic = {"years": iv0.years, "months": iv0.months, "weeks": iv0.weeks, "days": iv0.remaining_days, "hours": iv0.hours,
+                  "minutes": iv0.minutes, "seconds": iv0.remaining_seconds, "microseconds": iv0.microseconds}
+            # the operand is an equal Interval object whose TOTALS (in_weeks() ...) and other read-only views were asked first
             iv = base.add(**kw) - base
-            ic = {"years": iv.years, "months": iv.months, "weeks": iv.weeks, "days": iv.remaining_days, "hours": iv.hours,
-                  "minutes": iv.minutes, "seconds": iv.remaining_seconds, "microseconds": iv.microseconds}
+            for view in (iv.in_weeks, iv.in_days, iv.in_hours, iv.in_minutes, iv.in_seconds, iv.in_months, iv.in_years, iv.total_seconds,
+                         iv.in_words, iv.as_duration, lambda: -iv, lambda: abs(iv), lambda: hash(iv), lambda: str(iv)):
+                view()
         except (ValueError, OverflowError):
             continue
         for name, fn, ref in (("plus-Interval", lambda: x + iv, lambda: x.add(**ic)), ("minus-Interval", lambda: x - iv, lambda: x.subtract(**ic)),
